@@ -186,8 +186,98 @@ func hashed(v GV) (ty string, z int64, s string) {
 	return v.T, v.Z, ""
 }
 
-// MSet: the storable values the matcher associates with the filter value.
+// driverKind: the Go kind of the driver value the Valuer produces for a (non-NULL) scalar.
+func driverKind(v GV) string {
+	switch v.T {
+	case "string", "Label", "Loud":
+		return "string"
+	case "bytes":
+		return "bytes"
+	case "bool":
+		return "bool"
+	case "float64":
+		return "float"
+	}
+	return "int"
+}
+
+// TSet: the storable values the row tester of the repaired batch function (C10-fix-2) accepts for the filter
+// value: both sides serialized by the column's Valuer and compared by driverValuesEqual, i.e. same Go kind of
+// driver value and same value.
+func TSet(c *ColDesc, v GV) []SV {
+	kind, q, s := serialized(c, v)
+	var d SV
+	switch kind {
+	case "null":
+		d = SV{K: "null"}
+	default:
+		u := v
+		if u.T == "ptr" {
+			u = *u.Elem
+		}
+		dk := driverKind(u)
+		switch colClass(c) { // what a stored value of the column serializes to after the round trip through the field
+		case "int":
+			if dk != "int" {
+				return nil
+			}
+			d = SV{K: "int", Z: q / 4}
+		case "bool":
+			if dk != "bool" {
+				return nil
+			}
+			d = SV{K: "int", Z: q / 4}
+		case "float":
+			if dk != "float" {
+				return nil
+			}
+			d = SV{K: "float", Z: q}
+		case "str":
+			if dk != "string" {
+				return nil
+			}
+			d = SV{K: "str", S: s}
+		default:
+			if dk != "bytes" {
+				return nil
+			}
+			d = SV{K: "bytes", S: s}
+		}
+	}
+	if Storable(c, d) {
+		return []SV{d}
+	}
+	return nil
+}
+
+func inter(a, b []SV) []SV {
+	var out []SV
+	for _, x := range a {
+		for _, y := range b {
+			if x.key() == y.key() {
+				out = append(out, x)
+				break
+			}
+		}
+	}
+	return out
+}
+
+// Fixed says whether the tree under test has C10-fix-2 (the batch function asks the row tester); set once
+// per run from MatcherAsksTester.  The sets and predicates below describe the tree as it is.
+var Fixed bool
+
+// MSet: the storable values the batch function hands over for the filter value (matcher; and tester if Fixed).
 func MSet(c *ColDesc, v GV) []SV {
+	m := matcherSet(c, v)
+	if Fixed {
+		return inter(m, TSet(c, v))
+	}
+	return m
+}
+
+// matcherSet: the storable values the matcher associates with the filter value.
+func matcherSet(c *ColDesc, v GV) []SV {
 	ty, z, s := hashed(v)
 	ptr := strings.HasPrefix(c.Ty, "*")
 	if ty == "" {
